@@ -333,8 +333,14 @@ def run_tabs(ctx, shard, tun):
         if what == "note":
             p = rng.randint(max(0, min(opens) - 3), max(opens) + 27)
             w["note"] = p
-            st, txt = ctx.call(TAB.from_Note, Note(p), width, t)
             can = any(0 <= p - o <= 24 for o in opens)
+            nobj = Note(p)
+            if can and rng.random() < 0.4:
+                # the note as the tuning hands it out, carrying the string and fret it was asked for
+                hs, hf = rng.choice([(k, p - o) for k, o in enumerate(opens) if 0 <= p - o <= 24])
+                nobj = t.get_Note(hs, hf)
+                w["carries"] = {"string": hs, "fret": hf}
+            st, txt = ctx.call(TAB.from_Note, nobj, width, t)
             if not can:
                 ctx.check("tab: an entry with no possible fingering raises the fingering/range error", st == "exc" and
                           isinstance(txt, (RangeError, FingerError)), w, "RangeError", repr(txt)[:200], mechanism="tab-unplayable:note")
@@ -345,6 +351,13 @@ def run_tabs(ctx, shard, tun):
             ps = random_entry(rng, opens, playable_only=rng.random() < 0.85)
             w["notes"] = ps
             nc = NoteContainer([Note(p) for p in ps])
+            if playable(opens, ps) and rng.random() < 0.4:
+                # notes carrying string and fret, taken from one of the fingerings of the entry (so that the hints can be met together)
+                fg = rng.choice(brute_fingerings(opens, ps))
+                objs = [t.get_Note(k, f) for (k, f) in fg]
+                if objs and sorted(int(x) for x in objs) == sorted(ps):
+                    nc = NoteContainer(objs)
+                    w["carries"] = [[x.string, x.fret] for x in objs]
             st, txt = ctx.call(TAB.from_NoteContainer, nc, width, t)
             if not playable(opens, ps):
                 ctx.check("tab: an entry with no possible fingering raises the fingering/range error", st == "exc" and
